@@ -1564,6 +1564,21 @@ class Interp(object):
         raise OutOfReach('equality of %r and %r' % (a, b))
 
     def contains(self, cont, x):
+        if isinstance(cont, range) or (isinstance(cont, GenVal) and cont.kind == 'range'):
+            if isinstance(cont, range):
+                lo, hi, stp = cont.start, cont.stop, cont.step
+            else:
+                lo, hi, stp = cont.payload
+            if not self.is_intlike(x):
+                return False
+            sc = self.unique_const(self.int_term(stp))
+            if sc is None or sc <= 0:
+                raise OutOfReach('membership in range with symbolic/negative step')
+            xt, lt, ht = self.int_term(x), self.int_term(lo), self.int_term(hi)
+            c = z3.And(xt >= lt, xt < ht)
+            if sc != 1:
+                c = z3.And(c, (xt - lt) % sc == 0)
+            return self.wrap_bool(c)
         if isinstance(cont, SymFlags):
             for f, t in zip(cont.flags, cont.terms):
                 if f is x:
